@@ -6,9 +6,15 @@ Local Open Scope Z_scope.
 
 (* ---------- still open ---------- *)
 
-(* K35: the last 719468 values of time_point<days,int64>: days + 719468 overflows *)
-Lemma w_K35 : tp_print Pd I64 9223372036854775807 = UB UBOverflow /\ tp_print Pd I64 9223372036854056340 = UB UBOverflow /\
-  tp_print Pd I64 9223372036854056339 = Ok [43;50;53;50;53;50;55;51;52;57;50;55;55;54;54;53;53;52;45;48;57;45;50;53;84;48;48;58;48;48;58;48;48;90]%N.
+(* K35 / K35b (repaired in /repo 2854d54): the last 719468 values of time_point<days,int64> print and parse back; one day
+   beyond the type is out_of_range *)
+Definition text_K35 : list N := (* +25252734927768524-07-27T00:00:00Z *) [43;50;53;50;53;50;55;51;52;57;50;55;55;54;56;53;50;52;45;48;55;45;50;55;84;48;48;58;48;48;58;48;48;90]%N.
+Lemma r_K35 : tp_print Pd I64 9223372036854775807 = Ok text_K35 /\ tp_parse Pd I64 text_K35 = Ok 9223372036854775807 /\
+  tp_print Pd I64 9223372036854056340 = Ok [43;50;53;50;53;50;55;51;52;57;50;55;55;54;54;53;53;52;45;48;57;45;50;54;84;48;48;58;48;48;58;48;48;90]%N /\
+  tp_parse Pd I64 [43;50;53;50;53;50;55;51;52;57;50;55;55;54;56;53;50;52;45;48;55;45;50;56;84;48;48;58;48;48;58;48;48;90]%N = Err OutOfRange /\
+  tp_print Pd I64 (-9223372036854775808) = Ok [45;50;53;50;53;50;55;51;52;57;50;55;55;54;52;53;56;53;45;48;54;45;48;55;84;48;48;58;48;48;58;48;48;90]%N /\
+  tp_parse Pd I64 [45;50;53;50;53;50;55;51;52;57;50;55;55;54;52;53;56;53;45;48;54;45;48;55;84;48;48;58;48;48;58;48;48;90]%N = Ok (-9223372036854775808) /\
+  tp_parse Pd I64 [45;50;53;50;53;50;55;51;52;57;50;55;55;54;52;53;56;53;45;48;54;45;48;54;84;48;48;58;48;48;58;48;48;90]%N = Err OutOfRange.
 Proof. repeat split; vm_compute; reflexivity. Qed.
 
 (* K41 / K42: lenient acceptance outside the documented grammar *)
